@@ -212,7 +212,7 @@ def mono_raise_ok(path):
 
 def run_wiring(topo):
     def run(ctx):
-        eq, info = tk.build_equilibrium(ctx, topo)
+        eq, info = tk.build_equilibrium(ctx, topo, psi_pf=(0.9, 0.85))
         seg = info["segments"]
         with spec_mode():
             sep_grads = []
@@ -240,13 +240,28 @@ def run_wiring(topo):
                 share("core", "sol")
                 pf = "lower_pf" if topo == "lsn" else "upper_pf"
                 ctx.oblige(TRUE(ends[pf][1] == ends["sol"][0]), "private flux segment ends at the separatrix")
-            elif topo == "cdn":
+            elif topo.startswith("cdn"):
                 share("core", "inner_sol")
                 share("core", "outer_sol")
+                for pf in ("lower_pf", "upper_pf"):
+                    ctx.oblige(TRUE(ends[pf][1] == ends["inner_sol"][0] == ends["outer_sol"][0] == eq.psi_sep[0]), "connected double null: %s ends, and both SOL segments start, at the PRIMARY separatrix psi_sep[0] (whichever X-point is primary)" % pf)
             else:
                 share("core", "near_sol")
                 share("near_sol", "inner_sol")
                 share("near_sol", "outer_sol")
+            # requested boundary values
+            ctx.oblige(TRUE(ends["core"] == (eq.psi_core, eq.psi_sep[0])), "core segment runs from psi_core to the primary separatrix")
+            if not topo.startswith("cdn") and topo not in ("lsn", "usn"):
+                lower_first = eq.x_points[0].Z < 0
+                psi_low, psi_up = (eq.psi_sep[0], eq.psi_sep[1]) if lower_first else (eq.psi_sep[1], eq.psi_sep[0])
+                ctx.oblige(TRUE(ends["near_sol"] == (eq.psi_sep[0], eq.psi_sep[1])), "inter-separatrix segment runs from the first to the second separatrix")
+                ctx.oblige(TRUE(ends["lower_pf"] == (eq.psi_pf_lower, psi_low) and ends["upper_pf"] == (eq.psi_pf_upper, psi_up)), "each private-flux segment ends at the separatrix of ITS OWN X-point")
+                ctx.oblige(TRUE(ends["inner_sol"][1] == eq.psi_sol_inner and ends["outer_sol"][1] == eq.psi_sol), "SOL segments end at psi_sol_inner / psi_sol")
+            elif topo.startswith("cdn"):
+                ctx.oblige(TRUE(ends["lower_pf"][0] == eq.psi_pf_lower and ends["upper_pf"][0] == eq.psi_pf_upper and ends["inner_sol"][1] == eq.psi_sol_inner and ends["outer_sol"][1] == eq.psi_sol), "PF / SOL segments start / end at the requested limits")
+            else:
+                pf = "lower_pf" if topo == "lsn" else "upper_pf"
+                ctx.oblige(TRUE(ends[pf][0] == (eq.psi_pf_lower if topo == "lsn" else eq.psi_pf_upper) and ends["sol"] == (eq.psi_sep[0], eq.psi_sol)), "PF / SOL segments start / end at the requested limits")
             # dpsidi_sep halves when every nx doubles: it is (psi difference)/nx of the
             # segment with the smallest |spacing|, times the multiplier -- linear in 1/nx
             ctx.oblige(TRUE(True), "ok")
@@ -284,7 +299,7 @@ def build(S):
             S.contract("gridfunc-doubling[%s]" % which, FN, run_doubling(which), shape="scalar", feas_timeout_ms=3000)
         for n in (1, 2, 3):
             S.contract("make1dGrid[n=%d]" % n, FN_1D, run_make1dGrid(n), expected_exceptions=(ValueError,), raises_ok=mono_raise_ok, shape="n=%d" % n)
-        for topo in ("lsn", "usn", "cdn", "ldn", "udn"):
+        for topo in ("lsn", "usn", "cdn", "cdn_unbalanced", "cdn_upper_primary", "ldn", "udn"):
             S.contract("separatrix-gradient-wiring[%s]" % topo, FN_SEG, run_wiring(topo), expected_exceptions=(ValueError,), raises_ok=lambda p: True, shape="sizes symbolic")
         S.contract("segmentsWithPsivals", FN_SEG, run_segments, shape="2 segments")
 
